@@ -22,8 +22,10 @@ META = {
     "stubs": ["scipy.integrate.ode -> exact closed-form flow of a stable linear system / a drift flow; returns either a fresh or an aliased array",
               "scipy.integrate.solve_ivp -> uninterpreted flow (only for the earlier simulation)",
               "pebble/tqdm not involved (worker called directly)"],
-    "outside": "the relative convergence norm (the rational inequalities |(y2-y1)/y1| < tol made z3 answer unknown within 30 s per branch in a probe; not claimed); that LSODA's output is within tolerance of the true flow; non-linear networks; detection of a unique stable steady state; systems relaxing slower than e=1/2 per 100 time units",
-    "assumptions_list": ["0 < e <= 1/2", "k > 0", "tolerance > 0", "|y0 - y*| < tolerance * 2^(K-1) (bounds the loop; stated)"],
+    "outside": "the relative norm for two pools with a symbolic contraction factor (concrete factors only); that LSODA's output is within tolerance of the true flow; non-linear networks; detection of a unique stable steady state; systems relaxing slower than e=1/2 per 100 time units",
+    "assumptions_list": ["0 < e <= 1/2", "k > 0", "tolerance > 0", "|y0 - y*| < tolerance * 2^(K-1) (bounds the loop; stated)",
+                         "relative norm: y0 > 0, y* > 0, |y0 - y*| < y*/2 and |y0 - y*| < tolerance * y* * 2^(K-2) (bounds the loop; stated)",
+                         "relative norm, no steady state: drift c >= tolerance (y0 + 1000 c) with the default tolerance 1e-6"],
 }
 
 
@@ -172,11 +174,16 @@ class Steady(Scenario):
                 ctx.assume(e <= 0.5)
             bound = tol * (2 ** (self.K - 1))
             for v, s in zip(y0, ystar):
+                if self.rel and not self.zero_start:
+                    # relative norm: the loop ends by iteration K when |d0| 2^-(K-1) < tol (y* - |d0|); with |d0| < y*/2 that follows from
+                    ctx.assume(s > 0)
+                    ctx.assume(v > 0)
+                    ctx.assume(absval(v - s) * 2 < s)
+                    ctx.assume(absval(v - s) * 2 < bound * s)
+                    continue
                 ctx.assume(absval(v - s) * self.dim < bound)
                 if self.rel:
                     ctx.assume(s > 0)
-                    if not self.zero_start:
-                        ctx.assume(v > 0)
             stub = OdeStub(FlowModel("influx"), ctx.symbolic, ystar=ystar, e=e, alias=self.alias)
         isc.spi = stub
 
@@ -266,23 +273,24 @@ def scenarios(tier, seed):
     scs = []
     Ks = [3] if tier == "quick" else [3, 4]
     for alias in (True, False):
-        for rel in (False,):  # relative norm: see META.outside (probed: z3 answers unknown on the rational inequalities)
+        for rel in (False, True):
             for user in (False, True):
                 for earlier in (False, True):
                     for K in Ks:
-                        if rel:  # the relative norm is a rational function: concrete contraction factors
-                            for e in (0.5, 0.25):
-                                scs.append(Steady(1, rel, user, earlier, alias, K, e_conc=e))
-                        else:
-                            scs.append(Steady(1, rel, user, earlier, alias, K))
+                        scs.append(Steady(1, rel, user, earlier, alias, K))
         for e in (0.5, 0.25):
             scs.append(Steady(2, False, False, False, alias, 3, e_conc=e))
+        if tier != "quick":
+            scs.append(Steady(2, True, False, False, alias, 3, e_conc=0.5))
         scs.append(Steady(1, False, False, False, alias, 3, via="worker", e_conc=0.5))
+        scs.append(Steady(1, True, False, False, alias, 3, via="worker", e_conc=0.5))
         scs.append(Steady(1, True, True, False, alias, 3, e_conc=0.5, zero_start=True))
         scs.append(Steady(1, True, True, True, alias, 3, e_conc=0.25, zero_start=True))
         # no steady state
-        for rel in (False,):
+        for rel in (False, True):
             for earlier in (False, True):
+                if rel and earlier and tier == "quick":
+                    continue
                 scs.append(Steady(1, rel, False, earlier, alias, 0, drift=True))
         scs.append(Steady(1, False, False, False, alias, 0, drift=True, via="worker"))
         scs.append(Steady(1, False, False, False, alias, 0, drift=True, accelerating=True))
